@@ -89,16 +89,21 @@ def main():
     os.makedirs(cov)
     evp = os.path.join(ROOT, "evidence", pid + ".json")
     bak = open(evp).read() if os.path.exists(evp) else None
+    # a scratch worktree of the tree under test: the overlay files are copied into it (go's cover
+    # tool cannot see -overlay files), /repo itself is never written
+    wt = "/var/tmp/covwt-%s-%d" % (pid, os.getpid())
+    sh(["git", "-C", REPO, "worktree", "add", "--detach", "-f", wt, "HEAD"])
     try:
-        rc, out = sh(["./check", pid, "--tier", tier], cwd=ROOT, env={"VERIF_COVER": cov})
+        rc, out = sh(["./check", pid, "--tier", tier], cwd=ROOT, env={"VERIF_COVER": cov, "VERIF_REPO": wt})
     finally:
+        sh(["git", "-C", REPO, "worktree", "remove", "--force", wt])
         if bak is not None:
             with open(evp, "w") as f:
                 f.write(bak)
     profs = [os.path.join(cov, f) for f in os.listdir(cov) if f.endswith(".out")]
     bind = os.path.join(cov, "bin")
     if os.path.isdir(bind) and os.listdir(bind):
-        rc2, o2 = sh(["go", "tool", "covdata", "textfmt", "-i=" + bind, "-o", os.path.join(cov, "bin.out")], cwd=REPO)
+        rc2, o2 = sh(["go", "tool", "covdata", "textfmt", "-i=" + bind, "-o", os.path.join(cov, "bin.out")], cwd=REPO)  # noqa
         if rc2 == 0:
             profs.append(os.path.join(cov, "bin.out"))
         else:
